@@ -56,6 +56,23 @@ theorem C02_steps_stable_models (ext : Bool) (dss : List (List Call)) (hx : ∀ 
     rw [restrict_eq _ hj.inv defs]
     exact ⟨(stable_filter_kept _ _).mp h2, h3.symm⟩
 
+/-- **C02 (several steps, externals passed on)**: with the extension on, the external calls emitted over ALL steps of an incremental program are,
+    step after step and in the order of declaration, the atoms declared external in that step while no rule (of this or an earlier step) had defined
+    them, each with its image under the final atom map and the LAST value declared for it in that step -/
+theorem C02_steps_externals (dss : List (List Call)) (hx : ∀ ds ∈ dss, ∀ d ∈ ds, PlainOk d) :
+    extCalls (convert true (stepsCalls dss)).out = (stepRegs {} dss).map (fun p => (finalMap (convert true (stepsCalls dss)) p.1, p.2)) := by
+  have a1 : J (CS.apply { ext := true } (.initProgram true)) [] [] := by
+    rw [apply_init _ rfl]; exact (J.init true).emit _ rfl
+  have d1 : XI (CS.apply { ext := true } (.initProgram true)) {} := by
+    rw [apply_init _ rfl]; exact (XI.init true).emit _
+  have he : (CS.apply { ext := true } (.initProgram true)).ext = true := by rw [apply_init _ rfl]; rfl
+  obtain ⟨defs, t, hj, _, _⟩ := steps_JX dss hx a1 d1 rfl (Or.inr he)
+  have hm := agree_final _ hj.inv
+  have := steps_extCalls dss hx a1 d1 rfl he _ hm
+  rw [convert_steps_eq, this]
+  have e0 : extCalls (CS.apply { ext := true } (.initProgram true)).out = [] := by rw [apply_init _ rfl]; rfl
+  rw [e0, List.nil_append]
+
 /-! non-vacuity: three steps; a later step uses atoms of an earlier one, an integrity constraint, a weight rule and an output -/
 def exSteps : List (List Call) :=
   [[.rule 1 [1, 2] [], .rule 0 [3] [1, -2]], [.rule 0 [] [3, 4], .sumRule 0 [5] 2 [(1, 1), (3, 2)], .output [97] [5]], [.rule 0 [4] [-5], .minimize 0 [(4, 1)]]]
@@ -67,5 +84,11 @@ example : ∀ ds ∈ exSteps, ∀ d ∈ ds, PlainOk d := by
     rcases hd with rfl | rfl | rfl <;> simp [PlainOk, I32MINc]
 example : ∀ ds ∈ exSteps, extCalls ds = [] := by decide
 example : (rulesOf (convert true (stepsCalls exSteps)).out).length = 5 := by decide +kernel
+
+/-- two steps with externals: atom 1 free then true in step one, atom 2 declared in both steps, atom 3 defined in step one and declared in step two (no effect) -/
+def exStepsX : List (List Call) :=
+  [[.external 1 0, .external 2 2, .external 1 1, .rule 0 [3] [1, -2]], [.external 2 3, .external 3 1, .rule 0 [4] [2]]]
+example : stepRegs {} exStepsX = [(1, 1), (2, 2), (1, 1), (2, 3)] := by decide
+example : extCalls (convert true (stepsCalls exStepsX)).out = [(2, 1), (3, 2), (2, 1), (3, 3)] := by decide +kernel
 
 end PotasscoVerif.C02
